@@ -1,5 +1,491 @@
 package main
 
-func cmdCheck(args []string) int    { return 2 }
-func cmdReplay(args []string) int   { return 2 }
-func cmdSelftest(args []string) int { return 2 }
+import (
+	"encoding/json"
+	"fmt"
+	"os"
+	"os/exec"
+	"path/filepath"
+	"sort"
+	"strconv"
+	"strings"
+	"time"
+)
+
+type CheckDef struct {
+	Title       string   `json:"title"`
+	Units       []string `json:"units"`
+	Thorough    []string `json:"thorough_units,omitempty"` // extra units only in the thorough tier
+	Depends     []string `json:"depends_on,omitempty"`     // other property ids whose units are also run
+	LevelText   string   `json:"level_text"`
+	NotDecided  []string `json:"not_decided,omitempty"`
+	Trusted     []string `json:"trusted,omitempty"`
+	MinObls     int      `json:"min_obligations"`
+	Bounded     []string `json:"bounded_standins,omitempty"`
+	ExtraPkgs   []string `json:"extra_packages,omitempty"`
+	Scripts     []string `json:"scripts,omitempty"` // auxiliary deductive checks (name registered in scripts.go)
+}
+
+type KnownFinding struct {
+	Property   string `json:"property"`
+	Obligation string `json:"obligation"`
+	Witness    string `json:"witness_signature,omitempty"`
+	WhatFails  string `json:"what_fails"`
+	Status     string `json:"status"` // open | fixed:<commit>
+}
+
+func loadChecks() map[string]*CheckDef {
+	b, err := os.ReadFile(filepath.Join(verifDir, "checks.json"))
+	if err != nil {
+		fmt.Printf("ERROR reading checks.json: %v\n", err)
+		os.Exit(2)
+	}
+	m := map[string]*CheckDef{}
+	if err := json.Unmarshal(b, &m); err != nil {
+		fmt.Printf("ERROR parsing checks.json: %v\n", err)
+		os.Exit(2)
+	}
+	return m
+}
+
+func loadKnown() []KnownFinding {
+	b, err := os.ReadFile(filepath.Join(verifDir, "known_findings.json"))
+	if err != nil {
+		return nil
+	}
+	var k []KnownFinding
+	if err := json.Unmarshal(b, &k); err != nil {
+		fmt.Printf("ERROR parsing known_findings.json: %v\n", err)
+		os.Exit(2)
+	}
+	return k
+}
+
+type violation struct {
+	obl       *OblResult
+	replay    string
+	confirmed bool
+	note      string
+}
+
+func cmdCheck(args []string) int {
+	t0 := time.Now()
+	if len(args) < 1 {
+		usage()
+	}
+	id := args[0]
+	tier := os.Getenv("VERIF_TIER")
+	for i := 1; i < len(args); i++ {
+		if args[i] == "--tier" && i+1 < len(args) {
+			tier = args[i+1]
+			i++
+		}
+	}
+	if tier != "thorough" {
+		tier = "quick"
+	}
+	seed, _ := strconv.Atoi(os.Getenv("VERIF_SEED"))
+	if tier == "thorough" {
+		quickTimeout = 120 * time.Second
+		fastTimeout = 10 * time.Second
+		crossCheck = true
+	}
+	checks := loadChecks()
+	def, ok := checks[id]
+	if !ok {
+		fmt.Printf("ERROR unknown property %s\n", id)
+		return 2
+	}
+	// units: own + dependencies
+	type unitRef struct {
+		unit string
+		from string
+	}
+	var units []unitRef
+	seen := map[string]bool{}
+	add := func(us []string, from string) {
+		for _, u := range us {
+			if !seen[u] {
+				seen[u] = true
+				units = append(units, unitRef{u, from})
+			}
+		}
+	}
+	add(def.Units, id)
+	if tier == "thorough" {
+		add(def.Thorough, id)
+	}
+	for _, d := range def.Depends {
+		if dd, ok := checks[d]; ok {
+			add(dd.Units, d)
+		}
+	}
+	var names []string
+	for _, u := range units {
+		names = append(names, u.unit)
+	}
+	p := loadAll(names, def.ExtraPkgs)
+	loadT := time.Since(t0).Seconds()
+
+	var results []*UnitResult
+	var toolErrs []string
+	for _, u := range units {
+		r := verifyUnit(p, u.unit)
+		results = append(results, r)
+		if r.Err != "" {
+			toolErrs = append(toolErrs, fmt.Sprintf("%s: %s", u.unit, r.Err))
+		}
+	}
+	// auxiliary scripted checks
+	for _, s := range def.Scripts {
+		r := runScript(p, s, tier)
+		results = append(results, r)
+		if r.Err != "" {
+			toolErrs = append(toolErrs, fmt.Sprintf("script %s: %s", s, r.Err))
+		}
+	}
+	known := loadKnown()
+	isKnown := func(o *OblResult) *KnownFinding {
+		for i := range known {
+			k := &known[i]
+			if k.Property == id && k.Obligation == o.Name && k.Status == "open" {
+				if k.Witness == "" || witnessMatches(k.Witness, o) {
+					return k
+				}
+			}
+		}
+		return nil
+	}
+	var viols []*violation
+	var knownHit []string
+	nObl, nDis, nCover, nCoverOK := 0, 0, 0, 0
+	var samples []map[string]any
+	var oblList []map[string]any
+	solvers := map[string]bool{}
+	for _, r := range results {
+		for _, o := range r.Obls {
+			entry := map[string]any{"name": o.Name, "kind": o.Kind, "status": o.Status, "solver": o.Solver, "solver_time_s": round3(o.Time), "paths": o.Paths, "unit": o.Unit}
+			if o.Src != "" {
+				entry["clause"] = o.Src
+			}
+			oblList = append(oblList, entry)
+			for _, s := range strings.Split(o.Solver, ",") {
+				if s != "" {
+					solvers[s] = true
+				}
+			}
+			if o.Kind == "cover" {
+				nCover++
+				switch o.Status {
+				case "cover-ok":
+					nCoverOK++
+				case "cover-vacuous":
+					if strings.HasSuffix(o.Name, ".vacuity.requires") {
+						toolErrs = append(toolErrs, "vacuous precondition: "+o.Name)
+					} else {
+						viols = append(viols, &violation{obl: o, note: "no return path of the function is reachable under its precondition"})
+					}
+				}
+				continue
+			}
+			switch o.Status {
+			case "discharged", "trivial":
+				nObl++
+				nDis++
+				if len(samples) < 3 && o.query != "" {
+					samples = append(samples, map[string]any{"obligation": o.Name, "clause": o.Src, "smt_query_excerpt": tailLines(o.query, 12)})
+				}
+			default:
+				if k := isKnown(o); k != nil {
+					knownHit = append(knownHit, fmt.Sprintf("KNOWN-FINDING: property=%s %s %s", id, o.Name, k.WhatFails))
+					entry["known_finding"] = true
+					continue
+				}
+				nObl++
+				viols = append(viols, &violation{obl: o})
+			}
+		}
+	}
+	if len(toolErrs) > 0 && len(viols) == 0 {
+		for _, e := range toolErrs {
+			fmt.Printf("ERROR %s\n", e)
+		}
+		return 2
+	}
+	if nObl < def.MinObls && len(viols) == 0 {
+		fmt.Printf("ERROR vacuity guard: only %d obligations generated for %s, expected at least %d\n", nObl, id, def.MinObls)
+		return 2
+	}
+	// replays for violations
+	for _, v := range viols {
+		v.replay, v.confirmed, v.note = makeReplay(p, id, v)
+	}
+	// evidence
+	assumptions, unmodelled, funcs, usedC, usedL := []string{}, []string{}, []string{}, []string{}, []string{}
+	if knownHit == nil {
+		knownHit = []string{}
+	}
+	if def.NotDecided == nil {
+		def.NotDecided = []string{}
+	}
+	if def.Bounded == nil {
+		def.Bounded = []string{}
+	}
+	if def.Depends == nil {
+		def.Depends = []string{}
+	}
+	aset := map[string]bool{}
+	for _, r := range results {
+		funcs = append(funcs, r.Unit)
+		for _, a := range r.Assumptions {
+			if !aset["a"+a] {
+				aset["a"+a] = true
+				assumptions = append(assumptions, a)
+			}
+		}
+		for _, a := range r.Unmodelled {
+			if !aset["u"+a] {
+				aset["u"+a] = true
+				unmodelled = append(unmodelled, a)
+			}
+		}
+		for _, a := range r.UsedContr {
+			if !aset["c"+a] {
+				aset["c"+a] = true
+				usedC = append(usedC, a)
+			}
+		}
+		for _, a := range r.UsedLib {
+			if !aset["l"+a] {
+				aset["l"+a] = true
+				usedL = append(usedL, a)
+			}
+		}
+	}
+	sort.Strings(assumptions)
+	sort.Strings(unmodelled)
+	var solverList []string
+	for s := range solvers {
+		solverList = append(solverList, s)
+	}
+	sort.Strings(solverList)
+	trusted := append([]string{
+		"golang.org/x/tools v0.50.0 go/packages + go/ssa (NaiveForm|InstantiateGenerics) as the semantics of the Go source in /repo",
+		"specv VC generator and contract parser (/verif/tool), guarded by the must-fail selftest corpus and vacuity covers",
+		"SMT solvers: z3 5.1.0 (z3-new), z3 4.8.12, cvc5 1.0.3",
+	}, def.Trusted...)
+	for _, l := range usedL {
+		trusted = append(trusted, "assumed library contract: "+l)
+	}
+	if len(samples) == 0 {
+		samples = append(samples, map[string]any{"note": "no discharged obligation with a non-trivial query in this run"})
+	}
+	cov := map[string]any{
+		"obligations":            nObl,
+		"discharged":             nDis,
+		"checker_cmd":            fmt.Sprintf("./bin/specv check %s --tier %s", id, tier),
+		"trusted_base":           trusted,
+		"samples":                samples,
+		"functions_under_contract": funcs,
+		"obligation_list":        oblList,
+		"covers":                 nCover,
+		"covers_reachable":       nCoverOK,
+		"back_ends":              solverList,
+		"solver_time_s":          round3(totalSolverTime),
+		"load_time_s":            round3(loadT),
+		"unmodelled_calls":       unmodelled,
+		"callee_contracts_used":  usedC,
+		"not_decided":            def.NotDecided,
+		"bounded_standins":       def.Bounded,
+		"depends_on":             def.Depends,
+		"known_findings_hit":     knownHit,
+		"contract_files":         p.contractSource,
+		"contract_mirror":        p.mirrorNote,
+		"arith":                  "per function: 'bv' = all integers are fixed-width bit-vectors (exact machine arithmetic); 'int' = unsigned arithmetic wraps exactly, signed int is mathematical (overflow of signed int not modelled)",
+	}
+	ev := map[string]any{
+		"property_id": id, "tier": tier, "seed": seed, "level": "proof", "coverage": cov,
+		"assumptions": assumptions, "wall_s": round3(time.Since(t0).Seconds()), "violations": len(viols),
+	}
+	b, _ := json.MarshalIndent(ev, "", " ")
+	os.MkdirAll(filepath.Join(outDir(), "evidence"), 0o755)
+	os.WriteFile(filepath.Join(outDir(), "evidence", id+".json"), b, 0o644)
+
+	for _, k := range knownHit {
+		fmt.Println(k)
+	}
+	if len(viols) > 0 {
+		for _, v := range viols {
+			o := v.obl
+			fmt.Printf("FAIL %s  [%s] %s %.2fs\n", o.Name, o.Status, o.Solver, o.Time)
+			if len(o.Model) > 0 {
+				var ks []string
+				for k := range o.Model {
+					ks = append(ks, k)
+				}
+				sort.Strings(ks)
+				for _, k := range ks {
+					fmt.Printf("  model: %s = %s\n", k, o.Model[k])
+				}
+			}
+			if v.note != "" {
+				fmt.Printf("  %s\n", v.note)
+			}
+		}
+		for _, v := range viols {
+			suffix := ""
+			if !v.confirmed {
+				suffix = " no-failing-input-found"
+			}
+			fmt.Printf("VIOLATION property=%s replay=%s%s\n", id, v.replay, suffix)
+		}
+		for _, e := range toolErrs {
+			fmt.Printf("ERROR %s\n", e)
+		}
+		return 1
+	}
+	fmt.Printf("OK %s %d/%d obligations discharged (%d units, %d covers reachable, %.1fs)\n", id, nDis, nObl, len(results), nCoverOK, time.Since(t0).Seconds())
+	return 0
+}
+
+func witnessMatches(w string, o *OblResult) bool {
+	// witness signature: "key=value" pairs that must appear in the model
+	for _, kv := range strings.Split(w, ",") {
+		kv = strings.TrimSpace(kv)
+		if kv == "" {
+			continue
+		}
+		parts := strings.SplitN(kv, "=", 2)
+		if len(parts) != 2 {
+			continue
+		}
+		found := false
+		for k, v := range o.Model {
+			if strings.Contains(k, parts[0]) && strings.ReplaceAll(v, " ", "") == strings.ReplaceAll(parts[1], " ", "") {
+				found = true
+			}
+		}
+		if !found {
+			return false
+		}
+	}
+	return true
+}
+
+func outDir() string {
+	if d := os.Getenv("SPECV_OUT"); d != "" {
+		return d
+	}
+	return verifDir
+}
+
+func round3(f float64) float64 { return float64(int(f*1000+0.5)) / 1000 }
+
+func tailLines(s string, n int) string {
+	ls := strings.Split(strings.TrimSpace(s), "\n")
+	if len(ls) > n {
+		ls = ls[len(ls)-n:]
+	}
+	for i, l := range ls {
+		if len(l) > 400 {
+			ls[i] = l[:400] + "…"
+		}
+	}
+	return strings.Join(ls, "\n")
+}
+
+// makeReplay writes the replay file for a failed obligation and tries to confirm
+// the counterexample on the real code.
+func makeReplay(p *Prog, id string, v *violation) (string, bool, string) {
+	o := v.obl
+	dir := filepath.Join(outDir(), "replays", id)
+	os.MkdirAll(dir, 0o755)
+	path := filepath.Join(dir, mangle(o.Name)+".json")
+	qf := ""
+	if o.query != "" {
+		qf = saveQuery(dir, o.Name, o.query)
+	}
+	rep := map[string]any{
+		"property": id, "obligation": o.Name, "kind": o.Kind, "clause": o.Src, "status": o.Status,
+		"solver": o.Solver, "solver_output": o.Output, "model": o.Model, "trace": o.Trace, "query_file": qf, "unit": o.Unit,
+	}
+	confirmed := false
+	note := v.note
+	if o.Status == "failed" {
+		ok, out, test := replayOnRealCode(p, id, o)
+		rep["replay_test"] = test
+		rel, _ := splitUnit(o.Unit)
+		rep["replay_pkg"] = rel
+		rep["replay_output"] = out
+		rep["confirmed_on_real_code"] = ok
+		confirmed = ok
+		if ok {
+			note = "counterexample replayed on the real code: confirmed"
+		} else if test != "" {
+			note = "counterexample from the solver did not reproduce on the real code (see replay file)"
+		}
+	}
+	if !confirmed {
+		rep["result"] = "no-failing-input-found"
+	}
+	b, _ := json.MarshalIndent(rep, "", " ")
+	os.WriteFile(path, b, 0o644)
+	return path, confirmed, note
+}
+
+func cmdReplay(args []string) int {
+	if len(args) < 1 {
+		usage()
+	}
+	b, err := os.ReadFile(args[0])
+	if err != nil {
+		fmt.Println("ERROR", err)
+		return 2
+	}
+	var rep map[string]any
+	json.Unmarshal(b, &rep)
+	fmt.Printf("obligation: %v\nclause: %v\nstatus: %v\nmodel: %v\n", rep["obligation"], rep["clause"], rep["status"], rep["model"])
+	if t, ok := rep["replay_test"].(string); ok && t != "" {
+		pkgDir, _ := rep["replay_pkg"].(string)
+		out, ok := runOverlayTest(pkgDir, t, "TestVerifReplay")
+		fmt.Println(out)
+		if !ok {
+			fmt.Printf("VIOLATION property=%v replay=%s\n", rep["property"], args[0])
+			return 1
+		}
+		return 0
+	}
+	fmt.Println("no executable replay recorded (no-failing-input-found); solver output:")
+	fmt.Println(rep["solver_output"])
+	return 1
+}
+
+// runOverlayTest injects a test file into a package of /repo through -overlay and runs it.
+func runOverlayTest(pkgRel, testSrc, run string) (string, bool) {
+	tmp, err := os.MkdirTemp("", "specv-replay-")
+	if err != nil {
+		return err.Error(), false
+	}
+	defer os.RemoveAll(tmp)
+	tf := filepath.Join(tmp, "zz_verif_replay_test.go")
+	os.WriteFile(tf, []byte(testSrc), 0o644)
+	ov := map[string]any{"Replace": map[string]string{
+		filepath.Join(repoDir, pkgRel, "zz_verif_replay_test.go"): tf,
+	}}
+	// tun/client needs a placeholder for its embed directive
+	ph := filepath.Join(tmp, "index.html")
+	os.WriteFile(ph, []byte("<html></html>"), 0o644)
+	if _, err := os.Stat(filepath.Join(repoDir, "tun/client/ui/build/index.html")); err != nil {
+		ov["Replace"].(map[string]string)[filepath.Join(repoDir, "tun/client/ui/build/index.html")] = ph
+	}
+	ob, _ := json.Marshal(ov)
+	of := filepath.Join(tmp, "overlay.json")
+	os.WriteFile(of, ob, 0o644)
+	cmd := exec.Command("go", "test", "-overlay", of, "-vet=off", "-count=1", "-timeout", "60s", "-run", run, "./"+pkgRel)
+	cmd.Dir = repoDir
+	cmd.Env = append(os.Environ(), "GOFLAGS=-mod=mod", "GOPROXY=off", "GOSUMDB=off", "GOTOOLCHAIN=local")
+	out, err := cmd.CombinedOutput()
+	return truncate(string(out), 6000), err == nil
+}
+
+func cmdSelftest(args []string) int { return runSelftest(args) }
